@@ -99,7 +99,9 @@ def plan(tier, seed):
                   (gi, n0["mode"], n0["S"], n0["P"], n0["start"],
                    n0["sched"]),
           "sub": sub, "tf": tf, "part": n0["mode"],
-          "profile": {"x64": not tf}, "weight": npaths * g["T"]})
+          "profile": dict({"x64": not tf},
+                          **({"devices": 2} if n0["mode"] == "quant" else {})),
+          "weight": npaths * g["T"]})
       if n0["mode"] == "tf_sketchy" and n0["start"] == 0:
         # EKFAC variant: the update routine is also called on off-schedule
         # steps (to refresh the EKFAC scalings); the sketch must still move
@@ -141,7 +143,12 @@ def run_task(task):
     if task["tf"]:
       rp = replay.TFReplayer(n0, SHAPES_TF, task.get("extra", {}))
     else:
-      rp = replay.DSReplayer(n0, SHAPES_DS, {"block_size": 4}, SCHED_SPECS,
+      # coupled weight decay is on in the fixed-interval grids: it enters
+      # the warm-up update and the preconditioned one at different places
+      extra = {"block_size": 4, "_quant_devices": 2}
+      if not n0["sched"]:
+        extra["weight_decay"] = 0.25
+      rp = replay.DSReplayer(n0, SHAPES_DS, extra, SCHED_SPECS,
                              ["ok", "zero"])
     replay.replay_all_paths(acc, sub, rp, sig, case)
   except Exception as e:  # pylint: disable=broad-except
